@@ -106,7 +106,10 @@ class Tree:
 ROOT_SPECS: dict[str, tuple[Any, list[str]]] = {
     "a": ("a", ["a"]), "b": ("b", ["b"]),
     ".": (".", []), "": ("", []), "Path()": (Path(), []), "./a": ("./a", ["a"]), "b/": ("b/", ["b"]),
+    # given as an ABSOLUTE path even inside a list of relative ones
+    "/a": ("ABS", ["a"]), "/b": ("ABS", ["b"]),
 }
+
 
 CONFIGS: list[tuple[str, str, Any, Any]] = [
     ("fsl[a]", "fsl", ["a"], None),
@@ -138,6 +141,26 @@ CONFIGS: list[tuple[str, str, Any, Any]] = [
 ]
 
 
+# Degenerate search-path sequences (run on every seeded name and every exhaustive
+# name up to DEGENERATE_MAXLEN): zero search directories must serve NOTHING, not
+# fall back to the package root or the cwd; duplicates and "" mixed with real paths.
+DEGENERATE_MAXLEN = 4
+CONFIGS_D: list[tuple[str, str, Any, Any]] = [
+    ("fsl[]", "fsl", [], None),
+    ("fsl[].liquid", "rel", [], ".liquid"),
+    ("cfsl[]", "cfsl", [], None),
+    ("pkg[]", "pkg", [], ".liquid"),
+    ("pkg()", "pkg", (), ".liquid"),
+    ("choice[]", "choice", [], None),
+    ("cchoice[fsl[],pkg[]]", "cchoice", [("", "fsl", [], None), ("", "pkg", [], ".liquid")], None),
+    ("fsl-rel['',/b,'']", "rel", ["", "/b", ""], None),
+    ("fsl[a,a,b,a].liquid", "fsl", ["a", "a", "b", "a"], ".liquid"),
+    ("pkg[a,a]", "pkg", ["a", "a"], ".liquid"),
+    ("cfsl-rel[.,.,/a]", "crel", [".", ".", "/a"], None),
+]
+ALL_CONFIGS = CONFIGS + CONFIGS_D
+
+
 def cfg_roots(cfg: tuple) -> list[str]:
     _, kind, roots, _ = cfg
     if kind in ("choice", "cchoice"):
@@ -158,7 +181,7 @@ def mk_loader(cfg: tuple, T: Path):
             sp = str(sp[0])          # a single str search path
         return FileSystemLoader(sp, ext=ext)
     if kind in ("rel", "crel"):
-        sp = [ROOT_SPECS[r][0] for r in roots]
+        sp = [str(T.joinpath(*ROOT_SPECS[r][1])) if ROOT_SPECS[r][0] == "ABS" else ROOT_SPECS[r][0] for r in roots]
         if len(sp) == 1:
             sp = sp[0]               # a single str / Path search path: ".", "", Path()
         if kind == "rel":
@@ -167,8 +190,8 @@ def mk_loader(cfg: tuple, T: Path):
     if kind == "cfsl":
         return CachingFileSystemLoader([str(T.joinpath(*ROOT_SPECS[r][1])) for r in roots], ext=ext, capacity=50)
     if kind == "pkg":
-        pp: Any = ROOT_SPECS[roots[0]][0] if len(roots) == 1 else [ROOT_SPECS[r][0] for r in roots]
-        return PackageLoader(PKG, package_path=pp, ext=ext)
+        pp: Any = ROOT_SPECS[roots[0]][0] if len(roots) == 1 else type(roots)(ROOT_SPECS[r][0] for r in roots)
+        return PackageLoader(PKG, package_path=pp, ext=ext)      # [] stays a list, () a tuple
     members = [mk_loader(m, T) for m in roots]
     if kind == "choice":
         return ChoiceLoader(members)
@@ -199,6 +222,10 @@ def _worker_init(outer: str) -> None:
         env = Environment(loader=mk_loader(cfg, T))
         envs.append((env, env.from_string("{% include n %}")))
     _W["envs"] = envs
+    _W["envs_d"] = []
+    for cfg in CONFIGS_D:
+        env = Environment(loader=mk_loader(cfg, T))
+        _W["envs_d"].append((env, env.from_string("{% include n %}")))
     _W["loop"] = asyncio.new_event_loop()
     # FileSystemLoader / PackageLoader hop to the loop's default executor twice per
     # load; one worker thread keeps that cheap (harness-side setting only)
@@ -277,31 +304,34 @@ def _touches_disk(name: str) -> bool:
 
 def _run_envs(envs: list, name: str, full: bool = True) -> list[list]:
     """For each (env, include-template) the outcome of each access path (order: ACCESS).
-    full=False: the four async access paths are run only if some sync path did
-    not answer TemplateNotFoundError or the name touches something on disk."""
+    full=False (exhaustive names of exactly the length bound): if get_template and
+    `include` answer TemplateNotFoundError in every configuration and the
+    unguarded join of the name touches nothing on disk, the literal-tag and the
+    four async access paths are not run (None)."""
     def py(env):
         t = env.get_template(name)
         return ("F", t.render(), str(t.path))
 
+    base = [[_out(lambda: py(env)), _out(lambda: ("F", inc.render(n=name)))] for env, inc in envs]
+    if not (full or any(o[0] != "N" for row in base for o in row) or _touches_disk(name)):
+        return [[r[0], None, r[1], None, None, None, None, None] for r in base]
     sync, jobs = [], []
-    for env, inc in envs:
+    for (env, inc), row in zip(envs, base):
         lits = [_literal_ok(env, "render", name), _literal_ok(env, "extends", name)]
-        row = [_out(lambda: py(env)), _out(lambda: ("F", inc.render(n=name)))]
+        row = list(row)
         for t in lits:
             row.append(None if t is None else _out(lambda t=t: ("F", t.render())))
         sync.append(row)
         jobs.append((env, inc, name, lits))
-    if full or any(o is not None and o[0] != "N" for row in sync for o in row) or _touches_disk(name):
-        asy = _W["loop"].run_until_complete(_async_all(jobs))
-    else:
-        asy = [[None] * 4 for _ in jobs]
+    asy = _W["loop"].run_until_complete(_async_all(jobs))
     # interleave: py, py_async, include, include_async, render, render_async, extends, extends_async
     return [[s[0], a[0], s[1], a[1], s[2], a[2], s[3], a[3]] for s, a in zip(sync, asy)]
 
 
-def _run_names(names: list[tuple[str, bool]]) -> list[list[list]]:
-    """For each (name, full), for each config, the outcome of each access path."""
-    return [_run_envs(_W["envs"], name, full) for name, full in names]
+def _run_names(names: list[tuple[str, bool, bool]]) -> list[list[list]]:
+    """For each (name, full, degenerate), for each config (CONFIGS, then CONFIGS_D if
+    degenerate), the outcome of each access path."""
+    return [_run_envs(_W["envs"] + (_W["envs_d"] if deg else []), name, full) for name, full, deg in names]
 
 
 def _run_extra(job: tuple) -> list:
@@ -319,6 +349,157 @@ def _run_extra(job: tuple) -> list:
     if ent[0] == "ctor":
         return [("X", ent[1])] * 4 + [None] * 4
     return _run_envs([ent], name)[0]
+
+
+# ------------------------------------------------- histories on a LIVE loader
+# A history is run on ONE loader object whose search path changes between loads:
+#   kind "fsl" / "cfsl": the application reassigns loader.search_path
+#       (CachingFileSystemLoader has namespace_key="ns" and every load passes the
+#        number of reassignments so far as ns, so the parsed-template cache misses
+#        after a reassignment);
+#   kind "tfsl" / "tcfsl": a get_source()/get_source_async() override narrows the
+#       search path to <T>/<tenant> per load, tenant taken from the keyword
+#       arguments or from the render context (docs/loading_templates.md, "Load
+#       context"); the caching flavour has namespace_key="tenant".
+# ops: ("set", [root keys]) | ("load", name, access index, tenant or None)
+
+
+def _tenant_class(base: type) -> type:
+    class TenantLoader(base):  # type: ignore[misc,valid-type]
+        base_dir: Path
+
+        def _narrow(self, context, kwargs) -> None:  # type: ignore[no-untyped-def]
+            t = kwargs.get("tenant")
+            if t is None and context is not None:
+                t = context.globals.get("tenant")
+            self.search_path = [self.base_dir / str(t)] if t is not None else []
+
+        def get_source(self, env, template_name, *, context=None, **kwargs):  # type: ignore[no-untyped-def]
+            self._narrow(context, kwargs)
+            return super().get_source(env, template_name, context=context, **kwargs)
+
+        async def get_source_async(self, env, template_name, *, context=None, **kwargs):  # type: ignore[no-untyped-def]
+            self._narrow(context, kwargs)
+            return await super().get_source_async(env, template_name, context=context, **kwargs)
+
+    return TenantLoader
+
+
+def _load_once(env, inc, name: str, acc: int, kw: dict) -> tuple | None:
+    """One load through access path ACCESS[acc]; kw goes to get_template / into the render globals."""
+    run = _W["loop"].run_until_complete
+    if acc == 0:
+        def py():
+            t = env.get_template(name, **kw)
+            return ("F", t.render(), str(t.path))
+        return _out(py)
+    if acc == 1:
+        async def pya():
+            t = await env.get_template_async(name, **kw)
+            return ("F", await t.render_async(), str(t.path))
+        return run(_aout(pya()))
+    if acc in (2, 3):
+        t = inc
+        data = dict(kw, n=name)
+    else:
+        t = _literal_ok(env, "render" if acc in (4, 5) else "extends", name)
+        data = dict(kw)
+        if t is None:
+            return None
+    if acc % 2 == 0:
+        return _out(lambda: ("F", t.render(**data)))
+
+    async def rend():
+        return ("F", await t.render_async(**data))
+    return run(_aout(rend()))
+
+
+def _run_history(h: dict) -> list:
+    """Returns, per load op, (outcome on the live loader, outcome of a fresh
+    FileSystemLoader built with the search path current at that moment)."""
+    from liquid2 import CachingFileSystemLoader, Environment, FileSystemLoader
+    T = Path.cwd()
+    kind, ext = h["kind"], h["ext"]
+    if kind == "fsl":
+        loader = FileSystemLoader([], ext=ext)
+    elif kind == "cfsl":
+        loader = CachingFileSystemLoader([], ext=ext, namespace_key="ns", capacity=20)
+    elif kind == "tfsl":
+        loader = _tenant_class(FileSystemLoader)([], ext=ext)
+        loader.base_dir = T
+    else:
+        loader = _tenant_class(CachingFileSystemLoader)([], ext=ext, namespace_key="tenant", capacity=20)
+        loader.base_dir = T
+    env = Environment(loader=loader)
+    inc = env.from_string("{% include n %}")
+    current: list[str] = []
+    epoch = 0
+    out = []
+    for op in h["ops"]:
+        if op[0] == "set":
+            current = list(op[1])
+            loader.search_path = [T.joinpath(*ROOT_SPECS[k][1]) for k in current]
+            epoch += 1
+            continue
+        _, name, acc, tenant = op
+        if tenant is not None:
+            kw = {"tenant": tenant}
+            current = [tenant]
+        else:
+            kw = {"ns": f"s{epoch}"}
+        live = _load_once(env, inc, name, acc, kw)
+        fenv = Environment(loader=FileSystemLoader([T.joinpath(*ROOT_SPECS[k][1]) for k in current], ext=ext))
+        fresh = _load_once(fenv, None, name, 0, {})
+        out.append((live, fresh, list(current)))
+    return out
+
+
+HIST_NAMES = ["a", "b", "b/a", "a/a", ".a", "ab/a", "a.b", "ba", "x", "../ab", "~/x", "b/b/a", "ab/b"]
+HIST_SETS = [["a"], ["b"], ["a", "b"], ["b", "a"], [], ["."]]
+
+
+def gen_histories(tier: str) -> list[dict]:
+    hs: list[dict] = []
+    # systematic: load, switch, load the same name again, switch back, load again
+    switches = [(["a"], ["b"]), (["b"], ["a"]), (["a", "b"], ["b"]), (["."], ["a"]), (["a"], [])]
+    for kind in ("fsl", "cfsl"):
+        for ext in (None, ".liquid"):
+            for acc in range(len(ACCESS)):
+                for name in HIST_NAMES:
+                    for A, B in switches:
+                        hs.append({"kind": kind, "ext": ext, "ops": [
+                            ("set", A), ("load", name, acc, None), ("set", B), ("load", name, acc, None),
+                            ("set", A), ("load", name, acc, None)]})
+    for kind in ("tfsl", "tcfsl"):
+        for ext in (None, ".liquid"):
+            for acc in range(len(ACCESS)):
+                for name in HIST_NAMES:
+                    for t1, t2 in (("a", "b"), ("b", "a")):
+                        hs.append({"kind": kind, "ext": ext, "ops": [
+                            ("load", name, acc, t1), ("load", name, acc, t2), ("load", name, acc, t1)]})
+    # seeded: longer histories, access paths mixed (a memo filled by one path, read by another)
+    r = C.rng("c13", "histories")
+    for _ in range(300 if tier != "thorough" else 3000):
+        kind = r.choice(["fsl", "cfsl", "tfsl", "tcfsl"])
+        ext = r.choice([None, None, ".liquid"])
+        pool = r.sample(HIST_NAMES, 3)
+        ops: list[tuple] = []
+        if kind in ("fsl", "cfsl"):
+            ops.append(("set", r.choice(HIST_SETS)))
+        for _ in range(r.randint(4, 10)):
+            if kind in ("fsl", "cfsl"):
+                if r.random() < 0.35:
+                    ops.append(("set", r.choice(HIST_SETS)))
+                else:
+                    ops.append(("load", r.choice(pool), r.randrange(len(ACCESS)), None))
+            else:
+                ops.append(("load", r.choice(pool), r.randrange(len(ACCESS)), r.choice(["a", "b"])))
+        hs.append({"kind": kind, "ext": ext, "ops": ops})
+    return hs
+
+
+def _run_histories(hs: list[dict]) -> list[list]:
+    return [_run_history(h) for h in hs]
 
 
 # ------------------------------------------------------------------ Coq terms
@@ -345,7 +526,7 @@ def c_path(s: str) -> str:
 
 def c_root(r: str, rel: bool = False) -> str:
     segs = C.clist(map(C.cstr, ROOT_SPECS[r][1]), "str")
-    return f"(mkpath Rel {segs})" if rel else f"(mkpath Root1 (TT ++ {segs}))"
+    return f"(mkpath Rel {segs})" if rel and ROOT_SPECS[r][0] != "ABS" else f"(mkpath Root1 (TT ++ {segs}))"
 
 
 def c_loader(cfg: tuple) -> str:
@@ -416,6 +597,9 @@ def c_defs(tree: Tree, paths: list[str]) -> str:
         "  match sp with [] => ENotFound | (j, e) :: sp' => if Nat.eqb i j then e else look i sp' end.",
         "Definition chks (name : str) (sp : list (nat * expect)) :=",
         "  chk name (map (fun i => look i sp) (seq 0 (length LOADERS))).",
+        f"Definition LOADERS2 : list loader := Eval vm_compute in LOADERS ++ {C.clist(map(c_loader, CONFIGS_D), 'loader')}.",
+        "Definition chks2 (name : str) (sp : list (nat * expect)) :=",
+        "  all_match FS PATHS LOADERS2 name (map (fun i => look i sp) (seq 0 (length LOADERS2))).",
         "Definition one (l : loader) (name : str) (e : expect) := outcome_matches PATHS (get_source FS l name) e.",
         "Definition onec (l : loader) (name : str) (c : N) :=",
         "  match get_source FS l name with Ok (_, c') => N.eqb c c' | _ => false end.",
@@ -655,17 +839,20 @@ def _main(chk: C.Check, tree: Tree, thorough: bool) -> None:
     step = 64
     # every access path for every seeded name and every exhaustive name shorter
     # than the bound; at the bound itself the async paths only where it can matter
-    flagged = [(n, len(n) < maxlen) for n in ex] + [(n, True) for n in sd]
+    flagged = [(n, len(n) < maxlen, len(n) <= DEGENERATE_MAXLEN) for n in ex] + [(n, True, True) for n in sd]
     chunks = [flagged[i:i + step] for i in range(0, len(flagged), step)]
     with ctx.Pool(C.JOBS, initializer=_worker_init, initargs=(str(tree.outer),)) as pool:
         results = [r for part in pool.map(_run_names, chunks) for r in part]
         ext_results = pool.map(_run_extra, ext_jobs, chunksize=8)
+        hists = gen_histories(chk.tier)
+        hchunks = [hists[i:i + 40] for i in range(0, len(hists), 40)]
+        hist_results = [r for part in pool.map(_run_histories, hchunks) for r in part]
 
     orc = Oracle(tree, chk)
     enc = Enc(tree)
     items: list[dict[str, Any]] = []
     dist = {"found": 0, "not_found": 0, "other_exception": 0, "loads": 0, "tag_paths_skipped": 0,
-            "async_paths_skipped": 0}
+            "paths_skipped_at_length_bound": 0}
     nontrivial: set[str] = set()
     n_found = n_escape_target = n_dir = n_tilde = 0
     extra_cases = 0
@@ -677,11 +864,10 @@ def _main(chk: C.Check, tree: Tree, thorough: bool) -> None:
         exps = []
         extras = []
         found_any = False
-        for cfg, outs in zip(CONFIGS, per_cfg):
+        for cfg, outs in zip(ALL_CONFIGS, per_cfg):
             for acc, o in zip(ACCESS, outs):
                 if o is None:
-                    dist["async_paths_skipped" if acc.endswith("_async") and outs[1] is None
-                         else "tag_paths_skipped"] += 1
+                    dist["paths_skipped_at_length_bound" if outs[1] is None else "tag_paths_skipped"] += 1
                     continue
                 dist["loads"] += 1
                 dist[{"F": "found", "N": "not_found", "X": "other_exception"}[o[0]]] += 1
@@ -697,10 +883,11 @@ def _main(chk: C.Check, tree: Tree, thorough: bool) -> None:
                 if o is not None and obs(o) != obs(py):
                     extras.append((cfg, acc, o, None))
         items.append({
-            "case": "chks " + C.cstr(name) + " " + C.clist(
+            "case": ("chks " if len(per_cfg) == len(CONFIGS) else "chks2 ") + C.cstr(name) + " " + C.clist(
                 (f"({k}%nat, {e})" for k, e in enumerate(exps) if e != "n_"), "(nat * expect)"),
-            "model": f"map (fun l => get_source FS l {C.cstr(name)}) LOADERS",
-            "replay": {"name": name, "loaders": [c[0] for c in CONFIGS],
+            "model": f"map (fun l => get_source FS l {C.cstr(name)}) "
+                     + ("LOADERS" if len(per_cfg) == len(CONFIGS) else "LOADERS2"),
+            "replay": {"name": name, "loaders": [c[0] for c in ALL_CONFIGS[:len(per_cfg)]],
                        "implementation(py)": [list(o[0]) for o in per_cfg]},
         })
         for cfg, acc, o, e in extras:
@@ -772,6 +959,58 @@ def _main(chk: C.Check, tree: Tree, thorough: bool) -> None:
                               "replay": {"name": nm, "loader": cfg[0], "access": acc, "implementation": list(o),
                                          "py": list(py), "note": "access paths disagree"}})
 
+    # histories on a live loader: containment oracle against the search path
+    # current at each load, fresh-loader oracle, and the (stateless) model run
+    # with the current search path; identical model cases are evaluated once
+    hstat = {"histories": len(hists), "loads": 0, "found": 0, "loads_after_a_change": 0,
+             "found_before_and_not_after_change": 0, "live_differs_from_fresh": 0}
+    seen_cases: set[str] = set()
+    for h, res in zip(hists, hist_results):
+        loads = [op for op in h["ops"] if op[0] == "load"]
+        first: dict[str, tuple] = {}
+        for k, (op, (live, fresh, current)) in enumerate(zip(loads, res)):
+            if live is None:
+                dist["tag_paths_skipped"] += 1
+                continue
+            _, name, acc, tenant = op
+            cfg = (f"live-{h['kind']}{current}" + (h["ext"] or ""), "fsl", current, h["ext"])
+            hstat["loads"] += 1
+            dist["loads"] += 1
+            dist[{"F": "found", "N": "not_found", "X": "other_exception"}[live[0]]] += 1
+            hstat["found"] += live[0] == "F"
+            hstat["loads_after_a_change"] += k > 0
+            if name in first and first[name][0] == "F" and obs(live) != obs(first[name]):
+                hstat["found_before_and_not_after_change"] += 1
+                nontrivial.add(f"history:{h['kind']}:{h['ext']}:{name}:{first[name][1]}->{current}")
+            first.setdefault(name, live)
+            orc.check(cfg, name, f"{ACCESS[acc]} (step {k + 1} of a history on one live {h['kind']} loader: "
+                                 f"{json.dumps(h['ops'])[:300]})", live)
+            if obs(live) != obs(fresh):
+                hstat["live_differs_from_fresh"] += 1
+                if live[0] == "F":
+                    orc.failures += 1
+                    orc.by_sig["live-loader-serves-what-a-fresh-loader-does-not"] = \
+                        orc.by_sig.get("live-loader-serves-what-a-fresh-loader-does-not", 0) + 1
+                    if orc.by_sig["live-loader-serves-what-a-fresh-loader-does-not"] == 1:
+                        chk.finding("live-loader-serves-what-a-fresh-loader-does-not",
+                                    f"{h['kind']} ext={h['ext']}: after the search path became {current}, {name!r} via "
+                                    f"{ACCESS[acc]} returned {live[1]!r} ({tree.by_text.get(live[1])}); a fresh "
+                                    f"FileSystemLoader({current}) answers {fresh[0]}",
+                                    {"history": h, "step": k, "live": list(live), "fresh": list(fresh),
+                                     "search_path_now": current, "how": "harness/c13.py _run_history"})
+            for o, who in ((live, "live"), (fresh, "fresh")):
+                if len(o) == 3:
+                    case = f"one {c_loader(cfg)} {C.cstr(name)} {enc.expect(o)}"
+                elif o[0] == "F":
+                    case = f"onec {c_loader(cfg)} {C.cstr(name)} {enc.content_id(o[1])}"
+                else:
+                    case = f"one {c_loader(cfg)} {C.cstr(name)} {enc.expect(o)}"
+                if case not in seen_cases:
+                    seen_cases.add(case)
+                    items.append({"case": case, "model": f"get_source FS {c_loader(cfg)} {C.cstr(name)}",
+                                  "replay": {"name": name, "history": h, "step": k, "who": who, "search_path_now": current,
+                                             "access": ACCESS[acc], "implementation": list(o)}})
+
     correspond(chk, "c13", IMPORTS, c_defs(tree, enc.paths), items,
                what="PathResolve.get_source", shard=400 if thorough else 350)
 
@@ -791,8 +1030,9 @@ def _main(chk: C.Check, tree: Tree, thorough: bool) -> None:
                  "ChoiceLoader, nested ChoiceLoader, CachingChoiceLoader; one / two / reversed search paths, absolute or relative to the process cwd incl. the cwd itself as '.', '', Path(), './a', 'b/'; "
                  "HOME points at a scratch decoy directory; ext None, "
                  "'', '.liquid', '.b') x 8 access paths (get_template, get_template_async, include / render / extends in a template, "
-                 f"each sync and async; for exhaustive names of exactly length {maxlen} the four async paths are run only when a sync "
-                 "path did not answer TemplateNotFoundError or the unguarded join of the name, with or without an extension, "
+                 f"each sync and async; for exhaustive names of exactly length {maxlen} the literal-tag and the async paths are run only when "
+                 "get_template or include did not answer TemplateNotFoundError in some configuration or the unguarded join of the name, "
+                 "with or without an extension, "
                  f"touches something on disk); plus {len(ext_jobs)} (default extension x name) cases incl. invalid extensions. "
                  "non-trivial = names that some configuration served from a search directory, escaping names whose unguarded join "
                  "hits an existing file outside the search directory, names that resolve to a directory, and names with a leading '~' "
@@ -801,7 +1041,8 @@ def _main(chk: C.Check, tree: Tree, thorough: bool) -> None:
         "distribution": dict(dist, names=len(names), names_found_somewhere=n_found,
                              escaping_names_with_existing_target=n_escape_target, names_of_directories=n_dir,
                              tilde_names_with_existing_expansion_target=n_tilde,
-                             extra_access_path_cases=extra_cases, oracle_failures=orc.failures,
+                             extra_access_path_cases=extra_cases, live_loader_histories=hstat,
+                             degenerate_configurations=len(CONFIGS_D), oracle_failures=orc.failures,
                              oracle_failures_by_signature=orc.by_sig,
                              files_in_tree=len(tree.content)),
         "exhaustive": True,
